@@ -346,6 +346,7 @@ package asp
 //@   opt inline=off
 //@   opt precall=off
 //@   callsite (scope).Error frozen_lists_can_be_sliced [C18]: !listlike(obj)
+//@   ensures a_slice_is_a_new_list [C16 C17]: fresh(result)
 //@ func (scope).interpretIdentStatement
 //@   opt nopanic=off
 //@   opt panics=allowed
